@@ -150,12 +150,33 @@ impl Engine {
         Some(utime + stime)
     }
 
-    /// True if the engine used (almost) no CPU during the next `ms` milliseconds.
+    /// True if every thread of the engine is sleeping right now (state S in /proc): a thread that
+    /// wants the CPU but does not get it on a loaded machine is in state R, not S.
+    pub fn all_threads_sleeping(&self) -> Option<bool> {
+        let dir = std::fs::read_dir(format!("/proc/{}/task", self.child.id())).ok()?;
+        let mut n = 0;
+        for ent in dir.flatten() {
+            let stat = std::fs::read_to_string(ent.path().join("stat")).ok()?;
+            let state = stat.rsplit_once(')')?.1.split_whitespace().next()?.to_string();
+            n += 1;
+            if state != "S" {
+                return Some(false);
+            }
+        }
+        Some(n > 0)
+    }
+
+    /// True if the engine used (almost) no CPU during the next `ms` milliseconds AND all its
+    /// threads were asleep whenever looked at (so a starved search thread is not taken for idle).
     pub fn is_idle_for(&mut self, ms: u64) -> Option<bool> {
         let a = self.cpu_ticks()?;
-        self.settle(ms);
+        let mut asleep = self.all_threads_sleeping()?;
+        for _ in 0..5 {
+            self.settle(ms / 5);
+            asleep &= self.all_threads_sleeping()?;
+        }
         let b = self.cpu_ticks()?;
-        Some(b.saturating_sub(a) <= 1)
+        Some(asleep && b.saturating_sub(a) <= 1)
     }
 
     pub fn pid(&self) -> u32 {
